@@ -1,5 +1,5 @@
 // c05.cpp — the sequential approximate entry points on the real code (C05 / C06).
-//   X <alg> <D|I> <scale> <k> <graph>     alg = signed | fvs | iso
+//   X <alg> <D|I|L> <scale> <k> <graph>   alg = signed | fvs | iso ; D = double weights w*2^scale, I = int, L = long long (64-bit weights above 2^53)
 //       prints   <PUB answer> DIR SPR <retained input ids> SPD <dropped input ids> ROOTS <..> EORD <..> [FVS <..>] <DIR answer>
 //       (FVS, tree-based entry points only: parmcb::greedy_fvs on the kept object's spanner = pick oracle of the exact phase)
 //       PUB answer = the public entry point approx_mcb_sva_<alg>;  DIR answer = the same two statements the entry point
@@ -7,7 +7,7 @@
 //       oracles of ITS spanner can be read through the PARMCB_VERIF accessors: ROOTS = BFS root order of
 //       detail::spanning_forest on the spanner, EORD = rank of every spanner edge in std::set<Edge> (pointer) order.
 //       answer = THROW runtime_error EMITTED <n>   |   RET <w> N <n> CYC <len> <ids> ...
-//   J <D|I> <s> <graph>                   parmcb::dijkstra directly: DIST .. PRED ..
+//   J <D|I|L> <s> <graph>                 parmcb::dijkstra directly: DIST .. PRED ..
 // The emitted edge descriptors are looked up in the CALLER's graph after the call has returned (a descriptor that is not
 // an edge of the caller's graph prints as ?), so leaked internals are visible.
 #include "mcb_common.hpp"
@@ -144,10 +144,10 @@ int main() {
         std::string kind = t.next();
         if (kind == "X") {
             std::string alg = t.next(), ty = t.next(); int scale = (int) t.next_ll();
-            if (ty == "D") run_alg<DGraph>(alg, t, scale, out); else run_alg<IGraph>(alg, t, 0, out);
+            if (ty == "D") run_alg<DGraph>(alg, t, scale, out); else if (ty == "L") run_alg<LGraph>(alg, t, 0, out); else run_alg<IGraph>(alg, t, 0, out);
         } else if (kind == "J") {
             std::string ty = t.next();
-            if (ty == "D") run_dijkstra<DGraph>(t, out); else run_dijkstra<IGraph>(t, out);
+            if (ty == "D") run_dijkstra<DGraph>(t, out); else if (ty == "L") run_dijkstra<LGraph>(t, out); else run_dijkstra<IGraph>(t, out);
         } else throw std::logic_error("bad kind");
     });
 }
